@@ -21,7 +21,11 @@ type DialError struct {
 }
 
 func (e *DialError) Error() string {
-	return "websocket.Dial " + e.Config.Location.String() + ": " + e.Err.Error()
+	location := "<nil>"
+	if e.Config != nil && e.Config.Location != nil {
+		location = e.Config.Location.String()
+	}
+	return "websocket.Dial " + location + ": " + e.Err.Error()
 }
 
 // NewConfig creates a new WebSocket config for client connection.
